@@ -60,6 +60,14 @@ def gen_cases(ck):
         evs, o = G.gen_stream(rng)
         cases.append({"mask": rng.choice([0, 63, 63, 127 if rng.random() < 0.1 else 63, rng.randrange(64), rng.randrange(1, 64)]),
                       "w": o.w, "kind": "wellformed", "label": "-"})
+    # one ROB with more data words than fit a 16-bit counter (a legal, self-consistent fragment of > 256 KiB), per digi-producing detector
+    for det in ((0xA1, 0xA3) if quick else (0xA1, 0xA2, 0xA3, 0xA4)):
+        ev = G.gen_event(rng, nsub=0)
+        sd = G.gen_subdet(rng, det_id=det); sd.pop("raw", None)
+        rob = G.gen_rob(rng, det, big=True); rob["data"] = G.gen_data(rng, det, 65536 + 37)
+        ros = G.gen_ros(rng, det); ros["robs"] = [rob]
+        sd["ros"] = [ros]; ev["subs"] = [sd]
+        cases.append({"mask": 63, "w": G.enc_items([(None, ev)]).w, "kind": "wellformed", "label": "big-rob"})
     nbase = 0
     want = 10 if quick else 80
     while nbase < want:
@@ -79,6 +87,8 @@ def gen_cases(ck):
 def shrink_native(exe, mask, w):
     """greedy: shortest prefix (then zeroing of payload words is not attempted) that still ends in a sanitizer report"""
     best = w
+    if len(w) > 1500:          # every prefix of a long buffer is too much work (and a time-out costs seconds each): keep it as it is
+        return best
     lo_cases = [(mask, w[:k]) for k in range(len(w))]
     res = G.run_native(exe, lo_cases)
     for k, r in enumerate(res):
